@@ -51,7 +51,12 @@ RULE = (
     "backup - 3 custom samples, or the algorithm with max_iter=3 - and then calls set_optimization_history_backup("
     "load=True) on the non-empty database before executing again: its crash points are the executions after that "
     "call and the restart is a re-run of the same script); restart with reset_iteration_counters False "
-    "(3 in 4) or True. A reference child logs every discipline execution and, before the listeners of every "
+    "(3 in 4) or True; MDO design spaces with or without a current value (bounds only: start from the centre); "
+    "interrupted PARALLEL DOE (n_processes=2, every sample registered up front): samples of a drawn set fail "
+    "transiently, the process is killed while sample c is evaluated (every c; schedule made deterministic by the "
+    "harness discipline in the workers), leaving entries without outputs before complete ones, then a sequential "
+    "restart; one extra stratum per SLSQP / NLOPT_COBYLA pins iteration-only backups on the un-normalised problem "
+    "without observable. A reference child logs every discipline execution and, before the listeners of every "
     "Database.store run, the database state that store produces; EVERY crash point k=1..K is then run in a forked "
     "child that dies with os._exit(17) at the start of execution k, the backup is loaded with Database.from_hdf and "
     "compared (keys incl. dtype, order, names, shapes, values, exactly) with the state the policy implies, and a "
@@ -79,7 +84,13 @@ ASSUMPTIONS = [
     "chain is replaced by the single discipline there",
     "script that sets the backup after a first execution: the database right after load=True must be the first "
     "batch completed / followed by the backup's entries, executions made before that call are not rework",
-    "sequential execution (n_processes=1), deterministic algorithms (LHS with an explicit seed)",
+    "sequential execution (n_processes=1) except the interrupted parallel DOE, whose death is a SIGKILL of the main "
+    "process sent from the worker evaluating sample c once the earlier samples are stored and backed up; failed "
+    "samples are transient (the restart evaluates them); expected backup = every sample in order, completed ones with "
+    "the values of the sequential uninterrupted run, the others without outputs (no file with iteration backups "
+    "when nothing completed); deterministic algorithms (LHS with an explicit seed)",
+    "an execution at a point stored under a key of another dtype is not rework when the uninterrupted run also holds "
+    "the point under the executed key (complex-step runs request one point as complex128 and as float64)",
     "enable_progress_bar=False in every run: tqdm's process-shared lock and monitor thread must not be inherited by "
     "forked children that are killed (a harness precaution, the backup does not depend on the bar)",
     "the best loaded point is taken among backup entries holding the objective and the constraint; inequality "
@@ -112,7 +123,8 @@ def n_workers(ctx) -> int:
 
 # --------------------------------------------------------------------------- strategy
 @st.composite
-def configs(draw, algo: str):
+def configs(draw, algo: str, profile: dict | None = None):
+    """A configuration for ``algo``; ``profile`` pins some dimensions (a stratum of the generator)."""
     kind = "mdo" if algo in MDO_ALGOS else "doe"
     n_x = draw(st.integers(1, 2))
     # MDO budgets lean to the small side so that max_iter (not convergence) ends a good share of the runs
@@ -170,6 +182,8 @@ def configs(draw, algo: str):
                 p["structure"] = "single"  # a perturbation of a chain runs every link: up to 90 crash points
             if algo == "CustomDOE":
                 p["samples"] = [idx[:1] for idx in p["samples"][:5]]
+    if profile:
+        p.update(profile)
     return p
 
 
@@ -1019,8 +1033,15 @@ def _case(p, ctx, work, workers):
 
 # one oracle (one Hypothesis stream, one bucket of failures) per algorithm: every run covers all six
 ORACLES = {f"crash_{algo}": case_crash for algo in [*MDO_ALGOS, *DOE_ALGOS]}
-QUICK = {"SLSQP": 7, "L-BFGS-B": 3, "NLOPT_COBYLA": 6, "LHS": 3, "PYDOE_FULLFACT": 3, "CustomDOE": 4}
+QUICK = {"SLSQP": 6, "L-BFGS-B": 3, "NLOPT_COBYLA": 5, "LHS": 3, "PYDOE_FULLFACT": 3, "CustomDOE": 4}
 THOROUGH = {"SLSQP": 8, "L-BFGS-B": 5, "NLOPT_COBYLA": 6, "LHS": 5, "PYDOE_FULLFACT": 4, "CustomDOE": 5}
+
+
+# Stratum: backups at each iteration only, physical design vector handed to the functions as the optimiser owns it
+# (no normalisation, no observable or approximated gradient copying it first) - SciPy SLSQP and NLopt reuse that buffer.
+ITERATION_BACKUP = {"policy": "iter", "normalize": False, "observable": False, "diff": "user"}
+for _algo in ("SLSQP", "NLOPT_COBYLA"):
+    ORACLES[f"crash_{_algo}_iteration_backup"] = case_crash
 
 
 def run(ctx):
@@ -1028,3 +1049,5 @@ def run(ctx):
     ctx.extra["max_children_in_parallel_per_process"] = n_workers(ctx)
     for algo in [*MDO_ALGOS, *DOE_ALGOS]:
         ctx.drive(f"crash_{algo}", configs(algo), case_crash, quick=QUICK[algo], thorough=THOROUGH[algo])
+    for algo in ("SLSQP", "NLOPT_COBYLA"):
+        ctx.drive(f"crash_{algo}_iteration_backup", configs(algo, ITERATION_BACKUP), case_crash, quick=2, thorough=2)
